@@ -48,11 +48,10 @@ var extraNames = []string{"zz", "pi0", "n0", "", "0", "s0"}
 
 // paramsFor draws the parameter map for a text: values for (most of) the parameters the query
 // mentions, plus names it does not mention (among them names of its bound variables).
-func paramsFor(t *rapid.T, text string) (params []PV, nilMap bool) {
+func paramsFor(t *rapid.T, m *mentions) (params []PV, nilMap bool) {
 	g := vgen{t}
 	var symbols, vars []string
-	if q, err := xlate.Parse(text); err == nil && q != nil {
-		m := mentionsOf(q)
+	if m != nil {
 		symbols, vars = m.params, m.vars
 	}
 	seen := map[string]bool{}
@@ -82,9 +81,9 @@ func paramsFor(t *rapid.T, text string) (params []PV, nilMap bool) {
 	return params, nilMap
 }
 
-func textCase(t *rapid.T, src, text string) Case {
+func textCase(t *rapid.T, src, text string, m *mentions) Case {
 	c := Case{Src: src, Text: text}
-	c.Params, c.NilMap = paramsFor(t, text)
+	c.Params, c.NilMap = paramsFor(t, m)
 	c.Mapper = mapperDraw(t)
 	c.Strip = rapid.IntRange(0, 3).Draw(t, "strip") == 0
 	c.Conc = concDraw(t)
@@ -92,9 +91,13 @@ func textCase(t *rapid.T, src, text string) Case {
 	return c
 }
 
-func parses(text string) bool {
+// parsed: what the model of a text mentions, nil when the parser rejects it.
+func parsed(text string) *mentions {
 	q, err := xlate.Parse(text)
-	return err == nil && q != nil
+	if err != nil || q == nil {
+		return nil
+	}
+	return mentionsOf(q)
 }
 
 // ---- g4
@@ -112,12 +115,14 @@ func genG4(t *rapid.T) Case {
 		grammar = g
 	}
 	text := grammar.Query(t).Text
+	m := parsed(text)
 	// a text the parser rejects carries no obligation here: draw again (a few times) to keep the
 	// share of verdict-less cases low
-	for tries := 0; tries < 3 && !parses(text); tries++ {
+	for tries := 0; tries < 3 && m == nil; tries++ {
 		text = grammar.Query(t).Text
+		m = parsed(text)
 	}
-	return textCase(t, "g4", text)
+	return textCase(t, "g4", text, m)
 }
 
 // ---- corpus mutations
@@ -185,10 +190,12 @@ func genMut(t *rapid.T) Case {
 	qs := corpus.Queries()
 	q := qs[rapid.IntRange(0, len(qs)-1).Draw(t, "q")]
 	text := mutate(t, q)
-	for tries := 0; tries < 2 && !parses(text); tries++ {
+	m := parsed(text)
+	for tries := 0; tries < 2 && m == nil; tries++ {
 		text = mutate(t, q)
+		m = parsed(text)
 	}
-	return textCase(t, "mut", text)
+	return textCase(t, "mut", text, m)
 }
 
 // ---- typed queries
